@@ -2,7 +2,7 @@
 Alphabet: 33 dispatch forms (static, function value in variable/field/slice/map/channel/returned, closure, bound method
 value, method expression, interface method with 2 implementations, pointer-receiver implementation, embedded-interface
 promotion, generic instantiation, defer, go, go closure, function parameter, function passed to a deferred/go call,
-interface widening assertion, global initialised in init, one concrete type converted to two interfaces, one type shared by all hops, receivers kept as map keys - interface / pointer / channel keys, map-typed struct field, callables in named array / slice / map types); bound: all sequences of <=2 (quick) / <=3 (thorough) hops.
+interface widening assertion, global initialised in init, one concrete type converted to two interfaces, one type shared by all hops, receivers kept as map keys - interface / pointer / channel keys, map-typed struct field, callables in named array / slice / map types); bound: all sequences of <=2 hops (quick); thorough adds all 3-hop sequences over 13 core forms.
 Native: every function announces itself (rt.Enter/Leave keep the dynamic call stack), all valuations. Oracle: every
 executed function is in the analyzer's reachable set; every dynamic (caller, callee) transfer has a call-graph path
 caller->callee through synthetic wrappers only, both in the analyzer state's call graph (pointer analysis with all values
